@@ -257,6 +257,32 @@ def call(I, name, args, e):
     if n.endswith('as core::iter::Iterator>::map') or n == 'core::iter::Iterator::map':
         if isinstance(a0, IterV): return IterV(a0.seq, a0.by_ref, a0.kind, a0.maps + [args[1]], a0.enum)
         return I.top('map over %r' % (a0,), e)
+    if n in ('core::option::Option::<T>::iter', 'core::option::Option::<T>::iter_mut') or (n.endswith('::into_iter') and isinstance(a0, EnumV) and a0.path == 'core::option::Option'):
+        if isinstance(a0, EnumV): return IterV(a0, n.endswith('iter') or isinstance(args[0], RefV), kind='option')
+        return I.top('Option::iter of %r' % (a0,), e)
+    if n.endswith('as core::iter::Iterator>::flatten') or n == 'core::iter::Iterator::flatten':
+        if isinstance(a0, IterV) and a0.kind == 'option' and not a0.maps: return IterV(a0.seq, a0.by_ref, kind='optflat')
+        return I.top('flatten of %r' % (a0,), e)
+    if n in ('core::slice::<impl [[T; N]]>::as_flattened', 'core::slice::<impl [[T; N]]>::as_flattened_mut'):
+        m_ = re.match(r'^\[u8; (\d+)\]$', a0.elem) if isinstance(a0, SeqV) else None
+        if m_ and not a0.stores:
+            n_ = int(m_.group(1)); out = []
+            for sg in a0.segs:
+                if sg[0] == 'sym':
+                    nm_ = show(sg[1]) + '[i]'
+                    out.append(('rep', ('len', sg[1]), nm_, (('raw', ('a', nm_), C(n_)),)))
+                elif sg[0] == 'elem' and isinstance(sg[1], SeqV) and sg[1].is_bytes():
+                    fl = flatten_stores(sg[1])
+                    if fl is None: return I.top('as_flattened over a stored-to element', e)
+                    out.extend(fl)
+                elif sg[0] == 'fill' and isinstance(sg[2], SeqV) and sg[2].is_bytes() and not sg[2].stores:
+                    out.append(('rep', sg[1], None, tuple(sg[2].segs)))
+                else: return I.top('as_flattened over segment %s' % sg[0], e)
+            return RefV(Cell(SeqV('u8', norm_segs(out))))
+        return I.top('as_flattened of %r' % (a0,), e)
+    if n == 'core::ops::RangeInclusive::<Idx>::new':
+        if is_term(args[0]) and is_term(args[1]): return RangeV(args[0], add(args[1], ONE))
+        return I.top('inclusive range', e)
     if n.endswith('as core::iter::Iterator>::chain') or n == 'core::iter::Iterator::chain':
         b0 = deref(args[1])
         if isinstance(b0, SeqV): b0 = IterV(b0, isinstance(args[1], RefV))
